@@ -143,6 +143,20 @@ func H_C17_anybase() {
 	c17Check(base, p)
 }
 
+// the result depends on the arguments of this call only: an earlier call with other arguments (another base whose
+// text overlaps, another path) changes nothing
+func H_C17_second() {
+	b1 := vxString(vxParam("secLen"))
+	p1 := vxString(vxParam("secLen"))
+	vxAssume(b1 != "")
+	ResolveUrlPath(b1, p1)
+	b2 := vxString(vxParam("secLen"))
+	p2 := vxString(vxParam("secLen"))
+	vxAssume(b2 != "")
+	c17Check(b2, p2)
+	vxReach("second call")
+}
+
 // vacuity twin: must be reported violated
 func H_C17_vacuity() {
 	base := c17Bases[vxPick(len(c17Bases))]
